@@ -94,14 +94,14 @@ theorem addTask_safe {b : Bool} {st : St} (h : Good b st) (t : Task) (r : Realm)
     refine ⟨by simp [addTask], fun st' e => ?_⟩
     simp only [addTask, Out.ok.injEq] at e
     subst e
-    refine ⟨⟨h.inv, h.sm, ?_, h.lt, h.gtab, h.ltab, h.inFile, fun hb => ⟨(h.top hb).1, ?_⟩⟩, fun _ x => x, ?_⟩
+    refine ⟨⟨h.inv, h.sm, ?_, h.lt, h.gtab, h.ltab, h.inFile, fun hb => ⟨(h.top hb).1, (h.top hb).2.1, ?_⟩⟩, fun _ x => x, ?_⟩
     · intro t' ht'
       rcases List.mem_append.mp ht' with m | m
       · exact h.gt t' m
       · simp only [List.mem_singleton] at m; subst m; exact ht
     · intro t' ht'
       rcases List.mem_append.mp ht' with m | m
-      · exact (h.top hb).2 t' m
+      · exact (h.top hb).2.2 t' m
       · simp only [List.mem_singleton] at m; subst m; exact hg rfl
     · intro t' ht'
       rcases List.mem_append.mp ht' with m | m
